@@ -440,12 +440,17 @@ func (m *modelCtx) evalTimeout(n *Node, p *PolicySpec) mres {
 	}
 	ch := n.Children[0]
 	elapsed := n.Exit.T - n.Enter.T
-	isExc := n.Exit.Err != nil && errors.Is(n.Exit.Err, timeout.ErrExceeded) && n.Exit.Val == nil
-	childExc := ch.Exit != nil && ch.Exit.Err != nil && errors.Is(ch.Exit.Err, timeout.ErrExceeded)
-	if isExc && !childExc {
+	isExc := n.Exit.Val == nil && n.Exit.Err == timeout.ErrExceeded
+	childSame := ch.Exit != nil && ch.Exit.Val == nil && ch.Exit.Err == timeout.ErrExceeded
+	if isExc && !childSame {
+		// the Timeout's own ErrExceeded
 		if elapsed < p.Limit {
 			m.fail("timeout.early", "early", fmt.Sprintf("timeout at position %d with limit %v produced ErrExceeded after only %v", n.Pos, p.Limit, elapsed))
 		}
+		return mres{ok: true, verdict: false}
+	}
+	if isExc {
+		// an inner Timeout's ErrExceeded passed through, or this one fired as well: a failure either way
 		return mres{ok: true, verdict: false}
 	}
 	if ch.Exit == nil {
@@ -455,7 +460,8 @@ func (m *modelCtx) evalTimeout(n *Node, p *PolicySpec) mres {
 	if !m.passThrough(n, ch, "timeout") {
 		return mres{}
 	}
-	if childExc {
+	if errors.Is(ch.Exit.Err, timeout.ErrExceeded) {
+		// Timeout classifies anything that is ErrExceeded as its failure
 		return mres{ok: true, verdict: false}
 	}
 	return mres{ok: kids[0].ok, verdict: kids[0].verdict}
